@@ -263,8 +263,10 @@ func driveResult(args []string) error {
 					aliveList = append(aliveList, x)
 				}
 			}
+			// TLC integers are 32 bit: a result whose match count has grown large (self-merges double it) is replaced
+			big := alive[rid] && world.h[rid].MatchCount > 1000000
 			switch c := r.Intn(10); {
-			case !alive[rid] || c == 0:
+			case !alive[rid] || c == 0 || big:
 				op["name"] = "New"
 				op["pooled"] = r.Intn(2) == 0
 			case c <= 2:
@@ -287,6 +289,9 @@ func driveResult(args []string) error {
 					}
 					// a pooled operand is redeemed by the merge: once per call, never its own receiver
 					if o != "nil" && pooled[o] && (o == rid || used[o]) {
+						o = "nil"
+					}
+					if o != "nil" && world.h[o].MatchCount > 1000000 {
 						o = "nil"
 					}
 					used[o] = true
